@@ -131,6 +131,23 @@ func (w *world) digest() string {
 	return hex.EncodeToString(h.Sum(nil))[:32]
 }
 
+// resetEvents gives every context a fresh event manager; events() digests what an operation left in them (context
+// order fixed).  A message delivered on a branch hands its events to the parent's manager when the branch is written.
+func (w *world) resetEvents() {
+	w.pctx = w.pctx.WithEventManager(sdk.NewEventManager())
+	w.x.mctx = w.x.mctx.WithEventManager(sdk.NewEventManager())
+	w.x.vctx = w.x.vctx.WithEventManager(sdk.NewEventManager())
+	w.ln.ctx = w.ln.ctx.WithEventManager(sdk.NewEventManager())
+}
+
+func (w *world) events() string {
+	var evs sdk.Events
+	for _, c := range []sdk.Context{w.pctx, w.x.mctx, w.x.vctx, w.ln.ctx} {
+		evs = append(evs, c.EventManager().Events()...)
+	}
+	return eventsDigest(evs)
+}
+
 func errClass(err error) string {
 	if err == nil {
 		return "ok"
